@@ -37,7 +37,7 @@ ASSUMPTIONS = [
     "hash assumptions (non-zero, <= 2^256-2^64, injective) hold for real keccak on generated data; offsets added to hashes are < 2^64 or wrap-around 'negative' small values",
     "symbolic-storage mode is checked by metamorphic relations only (read-after-write, repeated read)",
 ]
-WATCHDOG_S = {"quick": 1500, "thorough": 7200}
+WATCHDOG_S = {"quick": 2400, "thorough": 10800}
 
 MANIFEST = {
     "technique": "differential testing of generated store/load sequences over a grammar of Solidity-style location expressions in multiple spellings against a flat-storage reference EVM with real keccak; both storage layouts; two-transaction variant for transient storage",
